@@ -18,9 +18,12 @@ import (
 	"fmt"
 	"math/rand"
 	"net"
+	"os"
 	"sort"
 	"strconv"
 	"strings"
+	"sync"
+	"sync/atomic"
 	"time"
 
 	"bngverif/hx"
@@ -53,7 +56,22 @@ func randRef(r *rand.Rand, creates int) string {
 	}
 }
 
+// genStress emits the concurrency sequences (only when C20_STRESS is set; the check runs them on a -race build).
+func genStress(r *rand.Rand, tier string, emit func([]string)) {
+	n := 20
+	if tier == "thorough" {
+		n = 200
+	}
+	for i := 0; i < n; i++ {
+		emit([]string{"new", fmt.Sprintf("setnext %d", hx.Pick(r, []int{1, 65500, 65535, 0})), fmt.Sprintf("stress %d 8 200", r.Int63n(1<<31))})
+	}
+}
+
 func (comp) Gen(r *rand.Rand, tier string, emit func([]string)) {
+	if os.Getenv("C20_STRESS") != "" {
+		genStress(r, tier, emit)
+		return
+	}
 	n := 3000
 	nLong := 10
 	if tier == "thorough" {
@@ -241,8 +259,85 @@ func (r *run) Do(op string) string {
 			parts = append(parts, fmt.Sprintf("%d=%s", s.ID, tokOf(s.ClientMAC)))
 		}
 		return strings.Join(parts, ",")
+	case "stress":
+		seed, _ := strconv.ParseInt(f[1], 10, 64)
+		g, _ := strconv.Atoi(f[2])
+		n, _ := strconv.Atoi(f[3])
+		return r.stress(seed, g, n)
 	}
 	return "badop"
+}
+
+// stress runs g goroutines on the shared manager.  Goroutine w owns MAC m<w+1> and keeps at most ONE live session
+// (create, check, remove), so no MAC ever has two live sessions and every lookup must agree; the id space, both maps
+// and the id counter are shared.  In-goroutine checks (anomalies): the session just created is found under its id
+// with the goroutine's MAC, and the lookup by MAC returns exactly it.  Then the full listing and every lookup by MAC.
+func (r *run) stress(seed int64, g, n int) string {
+	var anomalies int64
+	var wg sync.WaitGroup
+	for w := 0; w < g; w++ {
+		wg.Add(1)
+		go func(w int) {
+			defer wg.Done()
+			rr := rand.New(rand.NewSource(seed + int64(w)))
+			mac := macOf(fmt.Sprintf("m%d", w+1))
+			var live *pppoe.Session
+			for j := 0; j < n; j++ {
+				switch {
+				case live == nil:
+					s, err := r.m.CreateSession(mac, serverMAC)
+					if err != nil {
+						continue
+					}
+					live = s
+					if got := r.m.GetSession(s.ID); got != s {
+						atomic.AddInt64(&anomalies, 1)
+					}
+					if got := r.m.GetSessionByMAC(mac); got != s {
+						atomic.AddInt64(&anomalies, 1)
+					}
+					if s.ID == 0 {
+						atomic.AddInt64(&anomalies, 1)
+					}
+				case rr.Intn(3) == 0:
+					r.m.Count()
+					r.m.GetAllSessions()
+					r.m.CleanupExpired(time.Hour)
+					if got := r.m.GetSessionByMAC(mac); got != live {
+						atomic.AddInt64(&anomalies, 1)
+					}
+				default:
+					r.m.RemoveSession(live.ID)
+					if r.m.GetSession(live.ID) == live {
+						atomic.AddInt64(&anomalies, 1)
+					}
+					live = nil
+				}
+			}
+		}(w)
+	}
+	wg.Wait()
+	all := r.m.GetAllSessions()
+	sort.Slice(all, func(i, j int) bool { return all[i].ID < all[j].ID })
+	var sess, macs []string
+	for _, s := range all {
+		sess = append(sess, fmt.Sprintf("%d=%s", s.ID, tokOf(s.ClientMAC)))
+	}
+	for w := 1; w <= g; w++ {
+		tok := fmt.Sprintf("m%d", w)
+		if s := r.m.GetSessionByMAC(macOf(tok)); s != nil {
+			macs = append(macs, fmt.Sprintf("%s=%d", tok, s.ID))
+		} else {
+			macs = append(macs, tok+"=-")
+		}
+	}
+	j := func(xs []string) string {
+		if len(xs) == 0 {
+			return "-"
+		}
+		return strings.Join(xs, ",")
+	}
+	return fmt.Sprintf("anomalies %d sess %s mac %s", anomalies, j(sess), j(macs))
 }
 
 // Comp is the hx.Component of this package (hosted by cmd/pppsess and by the all-in-one cmd/c20).
